@@ -2723,10 +2723,10 @@ func (db *DB) Export(ctx context.Context, dst io.Writer) (ltx.Pos, error) {
 		walFrameOffsets[k] = v
 	}
 
-	// Release write lock, if acquired.
-	gs.write.Unlock()
-
 	// Acquire the CKPT & READ locks to prevent checkpointing, in case this is in WAL mode.
+	// The write lock is kept until they are held: otherwise a checkpoint followed by
+	// a WAL restart could overwrite the frames captured above before they are read,
+	// and the export would silently contain pages of a later position.
 	if err := gs.ckpt.RLock(ctx); err != nil {
 		return pos, fmt.Errorf("acquire CKPT read lock: %w", err)
 	}
@@ -2748,6 +2748,9 @@ func (db *DB) Export(ctx context.Context, dst io.Writer) (ltx.Pos, error) {
 	if err := gs.read4.RLock(ctx); err != nil {
 		return pos, fmt.Errorf("acquire READ4 read lock: %w", err)
 	}
+
+	// Release write lock, if acquired.
+	gs.write.Unlock()
 
 	// Open database file.
 	dbFile, err := db.os.Open("EXPORT:DB", db.DatabasePath())
